@@ -9,8 +9,8 @@ Seams     P  parse_tag(text, parser) followed by TagValueStruct.compile() of eve
              registered django-components @template_tag, so `{%a ...%}` reaches parse_tag).
 Parts     tag_strings   every string of <= L tokens over the 19-token syntax alphabet
                         (quick L=4: 137 561, thorough L=5: 2 613 660) through P and the 7 H seams;
-          templates     every string of <= L tokens over the 26-token template alphabet
-                        (syntax alphabet + {% %} {{ }} {# #} newline) through W;
+          templates     every string of <= L tokens over the 27-token template alphabet
+                        (syntax alphabet + {% %} {{ }} {# #} newline and the opener `{%a `) through W;
           mutations     every single-token delete / duplicate / neighbour-swap of every tag of
                         a generated family of documented-syntax tags, through P and 2 H seams;
           roundtrip     for every generated tag: parse_tag(serialize(parse_tag(t))) == parse_tag(t)
@@ -50,7 +50,7 @@ LEVEL = "model_checking"
 DJANGO = {}
 
 TAG_ALPHABET = ["a", '"', "'", "[", "]", "{", "}", ":", ",", "|", "=", "...", "*", "**", "_(", ")", "\\", " ", "/"]
-TPL_ALPHABET = TAG_ALPHABET + ["%}", "{{", "{%", "#}", "\n", "}}", "{#"]
+TPL_ALPHABET = TAG_ALPHABET + ["%}", "{{", "{%", "#}", "\n", "}}", "{#", "{%a "]
 HEADS = [
     ("component 'c'", "endcomponent"),
     ("component", "endcomponent"),
@@ -185,10 +185,12 @@ def _site(exc):
     while tb is not None:
         fn = tb.tb_frame.f_code.co_filename
         last = (fn, tb.tb_frame.f_code.co_name)
-        if "django_components" in fn:
+        if "django_components" in fn and not fn.endswith("django_monkeypatch.py"):  # every Template() passes through the patch
             inner = last
         tb = tb.tb_next
     fn, name = inner or last or ("?", "?")
+    if isinstance(exc, RecursionError):  # the frame in which the limit is hit is arbitrary
+        return f"RecursionError@{os.path.basename(fn)}", inner is not None
     return f"{type(exc).__name__}@{os.path.basename(fn)}:{name}", inner is not None
 
 
@@ -340,15 +342,6 @@ def _worker_strings(w, W, payload):
 
 
 # ------------------------------------------------------------------ generated documented-syntax tags
-def _join(parts, sep):
-    out = []
-    for i, p in enumerate(parts):
-        if i:
-            out += sep
-        out += p
-    return out
-
-
 def valid_tags(thorough: bool):
     """deterministic list of token lists (the argument part of a tag, documented syntax only)"""
     q = lambda s: ['"', s, '"']  # noqa: E731
@@ -362,7 +355,7 @@ def valid_tags(thorough: bool):
     keys = [q("k"), ["a"]]
     cs = [",", " "]
 
-    def lists(vs, inner):
+    def lists(vs):
         out = []
         for v in vs:
             out.append(["["] + v + cs + ["1"] + ["]"])
@@ -385,10 +378,10 @@ def valid_tags(thorough: bool):
         return out
 
     v0 = leaves
-    v1 = lists(v0, False) + dicts(v0)
+    v1 = lists(v0) + dicts(v0)
     core = [["a"], q("s"), ["a", "|", "upper"]]
-    v1core = lists(core, False) + dicts(core)
-    v2 = lists(v1core, True) + dicts(v1core) if thorough else lists(v1core[:8], True) + dicts(v1core[16:22])
+    v1core = lists(core) + dicts(core)
+    v2 = lists(v1core) + dicts(v1core) if thorough else lists(v1core[:8]) + dicts(v1core[16:22])
     values = v0 + v1 + v2
     attrs = []
     for v in values:
@@ -611,7 +604,7 @@ def families():
 
 
 NEST = [("P", "[", "a", "]"), ("P", "{a:", "a", "}"), ("P", "[{a:", "a", "}]"), ("P", "[a,", "a", "]"), ("P", "a=[", '"q"', ",]"),
-        ("T", "[", "a", "]"), ("T", "{a:", "a", "}")]
+        ("T", "[", "a", "]"), ("T", "{a:", "a", "}"), ("T", "[{a:", "a", "}]"), ("P", "[[[[", "a", "]]]]"), ("T", "[[[[", "a", "]]]]")]
 
 
 def family_input(fam, k):
